@@ -172,6 +172,34 @@ add("C13", "exploration",
     "after a name was resolved and cached) are listed.",
     "DESIGN.md section 4 C13")
 
+add("C14", "exploration",
+    "state-comparison + liveness-battery monitor over copies of reachable object states; differential round trip of trait definitions (also under ASan+UBSan)",
+    "Sub-check A: random histories on module-level classes (nested containers, Instance graphs, transient traits, a "
+    "written ReadOnly, decorated observers, items handlers, an observed cached Property, per-trait copy metadata), "
+    "then pickle protocols 0-5, copy.deepcopy and clone_traits(copy=None/'shallow'/'deep'): same class, equal "
+    "non-transient values, transients back at defaults, no shared mutable container (except where copy metadata "
+    "or the clone_traits docstring says so), and a liveness battery on the copy (every nested container rejects "
+    "invalid / converts convertible items, mutations notify the copy's handlers exactly once and nothing on the "
+    "original, observed properties not stale, ReadOnly stays written). Sub-check B: about 200 trait-definition "
+    "kinds through pickle(0,2,5)/deepcopy/copy: same validate outcome on the lattice, default, metadata, flags, "
+    "install-and-use behaviour; each kind under a write-ahead record, also run under the sanitized build.",
+    "Trusted: the harness's expectation table (self-checked on never-copied objects at start-up). Detached "
+    "container copies are documented not to validate. Known findings F18, F35-F37 are listed.",
+    "DESIGN.md section 4 C14")
+
+add("C15", "exploration",
+    "independent recogniser + denotation (path sets) compared with parse/compile_str; exhaustive short token strings, derivation shapes, random strings; cache and live round-trip monitors",
+    "A hand-written tokenizer, recursive-descent recogniser and path-set denotation (observer kind, name, notify, "
+    "optional) written from the .lark rules and the manual are compared with the implementation on every token "
+    "string over a 10-symbol alphabet up to length 6 (thorough 8; 1.1 M / 111 M strings, acceptance, ValueError on "
+    "rejection and meaning all checked), all derivation shapes to depth 3 with whitespace/bracket respellings "
+    "(equal compiled graphs), random character-level strings incl. unicode and odd whitespace, parse/compile "
+    "equality and hash across lru-cache eviction, near-miss pairs with different meaning (must not compile equal), "
+    "and live observe(h, s1) / observe(h, s2, remove=True) round trips restoring the notifier census.",
+    "Trusted: the reference recogniser/denotation (about 300 lines). The formal rules, not the manual's prose "
+    "example '[a.*, b.c]', are the contract. Strings stay below about 80 elements.",
+    "DESIGN.md section 4 C15")
+
 add("C16", "exploration",
     "differential monitor: legacy on_trait_change extended names vs observe vs a reachability model, with a probe phase",
     "Tree-shaped graphs only; 102 (thorough 163) name pairs expressible in both systems (., :, list/dict/set "
